@@ -308,6 +308,23 @@ func genKeys(r *rand.Rand, family string, n, maxLen int) []string {
 			k := randBytes(r, lv, alpha) + randBytes(r, r.Intn(maxLen+1), []byte{0x00, 0x31, 0x62, 0x80, 0xff})
 			ks = append(ks, k)
 		}
+	case "comb":
+		// b, ab, aab, ...: a binary caterpillar whose inner nodes all look alike
+		a, b := byte('a'), byte('b')
+		if r.Intn(2) == 0 {
+			a, b = byte(r.Intn(256)), byte(r.Intn(256))
+			if a == b {
+				b++
+			}
+		}
+		for i := 0; i < n; i++ {
+			k := make([]byte, i+1)
+			for j := 0; j < i; j++ {
+				k[j] = a
+			}
+			k[i] = b
+			ks = append(ks, string(k))
+		}
 	case "nibdiv":
 		alpha := []byte{0x00, 0x01, 0x0f, 0x10, 0x7f, 0x80, 0xf0, 0xff}
 		for i := 0; i < n; i++ {
@@ -464,6 +481,7 @@ func floorWitness(c *TrieCase, qs []string) []int {
 
 type shapeInfo struct {
 	InnerBits, InnerCnt, LeafCnt, NodeCnt, StepCnt, TailCnt int
+	LastTop                                                 bool // last stored bit of the last inner node is set
 }
 
 func shapeOf(keys []string, o4 [4]int) (shapeInfo, bool) {
@@ -487,6 +505,7 @@ func shapeOf(keys []string, o4 [4]int) (shapeInfo, bool) {
 	si := shapeInfo{InnerCnt: d.InnerCnt, LeafCnt: d.LeafCnt, NodeCnt: len(d.Nodes), StepCnt: d.StepCnt}
 	for _, n := range d.Nodes {
 		if n.Inner {
+			si.LastTop = n.TopBit
 			switch {
 			case n.Big:
 				si.InnerBits += 257
@@ -506,6 +525,7 @@ var boundaryConds = []struct {
 	Name string
 	F    func(s shapeInfo) bool
 }{
+	{"innerbits%64=0+lastbit", func(s shapeInfo) bool { return s.InnerBits > 0 && s.InnerBits%64 == 0 && s.LastTop }},
 	{"innerbits%64=0", func(s shapeInfo) bool { return s.InnerBits > 0 && s.InnerBits%64 == 0 }},
 	{"innerbits%64=63", func(s shapeInfo) bool { return s.InnerBits%64 == 63 }},
 	{"innerbits%64=1", func(s shapeInfo) bool { return s.InnerBits > 64 && s.InnerBits%64 == 1 }},
@@ -526,6 +546,9 @@ var boundaryConds = []struct {
 func seekBoundary(r *rand.Rand, family string, ci int, o4 [4]int) []string {
 	cond := boundaryConds[ci%len(boundaryConds)]
 	n := 70 + r.Intn(3)*64 + r.Intn(20)
+	if family == "comb" {
+		n = 34 + r.Intn(3)*32 + r.Intn(8)
+	}
 	keys := genKeys(r, family, n, 1+r.Intn(8))
 	for tries := 0; tries < 400 && len(keys) > 2; tries++ {
 		if si, ok := shapeOf(keys, o4); ok && cond.F(si) {
@@ -541,4 +564,4 @@ func seekBoundary(r *rand.Rand, family string, ci int, o4 [4]int) []string {
 	return nil
 }
 
-var boundaryFamilies = []string{"twosym", "uniform", "samehigh", "wide", "palette", "ascii", "prefixes", "nibdiv"}
+var boundaryFamilies = []string{"twosym", "uniform", "samehigh", "wide", "palette", "ascii", "prefixes", "nibdiv", "comb", "twosym"}
